@@ -337,10 +337,17 @@ func readyBucketOK(store *HStore, ki *KeyInfo) bool {
 //@   ints bv
 //@   timeout 30
 //@   opaque treePosOK noCollisionForHash QlzD QlzVhash QlzValid
-//@   requires ki != nil && !ki.KeyIsPath && p != nil && storeOK(store) && readyBucketOK(store, ki) && len(ki.Key) <= 255 && len(p.Body) < 1<<31-400
+//@   requires p != nil && SpecSetKiOK(store, ki) && len(p.Body) < 1<<31-400
 //@   requires p.Ver > -2147483648 && (p.Ver < 0 ==> p.Addr == 0 && p.Cap == 0)
-//@   requires store.buckets[kiBucket(ki)].State == BUCKET_STAT_READY ==> treeVerOf(store.buckets[kiBucket(ki)], kiHash(ki)) > -2147483647 && treeVerOf(store.buckets[kiBucket(ki)], kiHash(ki)) < 2147483647
 //@   modifies *
 //@   ensures ki.KeyHash == kiHash(ki) && ki.BucketID == kiBucket(ki)
 //@   ensures old(p.Ver) >= 0 ==> cmem.DBRL.SetData.Count == old(cmem.DBRL.SetData.Count)-1
 //@   ensures old(p.Ver) < 0 ==> cmem.DBRL.SetData.Count == old(cmem.DBRL.SetData.Count)
+
+// SpecSetKiOK: the store-level preconditions of HStore.Set for a key info (exported for the contract
+// of gobeansdb.StorageClient.Set)
+func SpecSetKiOK(store *HStore, ki *KeyInfo) bool {
+	b := store.buckets[kiBucket(ki)]
+	return ki != nil && !ki.KeyIsPath && storeOK(store) && readyBucketOK(store, ki) && len(ki.Key) <= 255 &&
+		(b.State != BUCKET_STAT_READY || (treeVerOf(b, kiHash(ki)) > -2147483647 && treeVerOf(b, kiHash(ki)) < 2147483647))
+}
